@@ -148,10 +148,13 @@ def apply_op(eng, tr, op):
         if c is None or op[1] not in tr.meta:
             return False
         eng.send(c, "qsetinfo", jobid=op[1], info={"p": op[2]})
+    elif k == "advance":
+        eng.advance(op[1])
+        return True
     elif k == "restart":
         if tr.pending:
             eng.run()
-        eng.restart()
+        eng.restart(op[1] if len(op) > 1 else 0)
         tr.pending = False
         tr.auto_pending = False
         return True
@@ -209,6 +212,9 @@ def enabled_ops(eng, tr, alphabet, last_op):
             ops.append(["tick", dt])
     if "restart" in A and (last_op is None or last_op[0] != "restart"):
         ops.append(["restart"])
+        if tr.created:
+            for dt in A.get("downtimes", ()):
+                ops.append(["restart", dt])
     return ops
 
 
@@ -294,7 +300,37 @@ def random_history(rnd, alphabet, length, maxjobs, rendezvous_bias=0.5):
     def jid():
         return "j%d" % rnd.randint(1, max(1, njobs))  # (auto ids are ints; reached via DFS enabling)
 
-    if rnd.random() < rendezvous_bias:
+    shape = rnd.random()
+    if "readd" in A and shape < 0.12:
+        # re-incarnation shape: a worker still holds a killed job whose id is then used again
+        w = rnd.choice(WORKERS)
+        ops += [["add", rnd.choice("ab"), rnd.choice((0, 1)), False], ["pull", w, rnd.choice(CHANSETS)], ["run"],
+                ["kill", "j1"], ["readd", "j1"]]
+        njobs = 1
+        if rnd.random() < 0.5:
+            ops.append(["run"])
+    elif "restart" in A and 0.12 <= shape < 0.24:
+        # everything collected: jobs finished, then dropped by the watchdog after their ttl
+        w = rnd.choice(WORKERS)
+        n = rnd.randint(1, 2)
+        for k in range(1, n + 1):
+            if "addauto" in A and rnd.random() < 0.6:
+                ops.append(["addauto", rnd.choice("ab")])
+                j = k
+            else:
+                ops.append(["add", rnd.choice("ab"), 0, False])
+                j = "j%d" % k
+            ops += [["run"], ["pull", w, []], ["run"], ["fin", j], ["run"]]
+        njobs = n
+        if rnd.random() < 0.4:
+            ops.append(["restart"])      # a saved state that still has the jobs
+        ops += [["tick", 60], ["tick", 4000], ["tick", 4000]]
+        if rnd.random() < 0.7:
+            ops.append(["restart"])      # a saved state with an empty table but a used id space
+            if "addauto" in A and rnd.random() < 0.7:
+                ops += [["addauto", rnd.choice("ab")], ["run"]]
+                njobs += 1
+    elif shape < 0.24 + rendezvous_bias:
         # rendez-vous shapes: blocked pullers first, then a burst of adds in one quantum
         for w in rnd.sample(WORKERS, rnd.randint(1, 3)):
             ops.append(["pull", w, rnd.choice(CHANSETS)])
@@ -324,7 +360,8 @@ def random_history(rnd, alphabet, length, maxjobs, rendezvous_bias=0.5):
             if k == "setinfo":
                 ops.append(["setinfo", jid(), rnd.randint(0, 9)])
             elif k == "restart":
-                ops.append(["restart"])
+                dts = A.get("downtimes", ())
+                ops.append(["restart", rnd.choice(dts)] if dts and rnd.random() < 0.4 else ["restart"])
             elif k == "addauto":
                 ops.append(["addauto", rnd.choice("ab")])
                 njobs += 1
